@@ -416,19 +416,23 @@ func (g *gen) spellings(n *big.Int) {
 	}
 	// canonical decimal (also the plain JSON number)
 	g.addText(n.String(), "dec", n, 0)
-	// hex, three casings, optional leading zeros (negatives have no hex class in the quantifier: model only)
+	// hex, three casings, optional leading zeros (negative hex: spec oracle through C19_signed_hex_exact)
 	hx := abs.Text(16)
 	for mode := 0; mode < 3; mode++ {
 		t := "0x" + mixCase(r, hx, mode)
 		if neg {
-			g.addText("-"+t, "hex-neg", nil, 0)
+			g.addText("-"+t, "hex-neg", n, 0) // denotation -abs: C19_signed_hex_exact (an error for the JSON types, -abs for the text entry point)
 		} else {
 			g.addText(t, "hex", n, 0)
 		}
 	}
 	if !neg {
 		g.addText("0x"+strings.Repeat("0", 1+r.Intn(3))+hx, "hex-lead0", n, 0)
-		g.addText("0X"+mixCase(r, hx, 2), "hex-0X", nil, 0)
+		g.addText("0X"+mixCase(r, hx, 2), "hex-0X", n, 0) // upper-case prefix: C19_signed_hex_exact
+		if n.Sign() == 0 {
+			g.addText("-0x0", "hex-neg-zero", n, 0) // minus zero is zero: accepted
+			g.addText("-0X00", "hex-neg-zero", n, 0)
+		}
 	}
 	// exponent forms
 	ds := abs.String()
